@@ -13,6 +13,7 @@ import (
 	"fmt"
 	"math/rand"
 	"runtime"
+	"strings"
 	"sync"
 	"sync/atomic"
 	"time"
@@ -277,7 +278,40 @@ func runCase(c jcase, rep *batch.Report) batch.CaseResult {
 		windowHit.Store(true)
 	}
 
-	jerr := joiner.Join(via)
+	// the join request must be answered. It normally takes milliseconds (at most a few retries a
+	// stabilize interval apart); if it has not returned after 45 s the goroutine dump decides: a Join
+	// blocked acquiring a lock inside the repository's chord package will never be answered.
+	jch := make(chan error, 1)
+	go func() { jch <- joiner.Join(via) }()
+	var jerr error
+	select {
+	case jerr = <-jch:
+	case <-time.After(45 * time.Second):
+		buf := make([]byte, 4<<20)
+		buf = buf[:runtime.Stack(buf, true)]
+		stuck := ""
+		for _, g := range strings.Split(string(buf), "\n\n") {
+			if strings.Contains(g, "chord.(*LocalNode).RequestToJoin") && (strings.Contains(g, "sync.(*RWMutex).") || strings.Contains(g, "sync.(*Mutex).")) && (strings.Contains(g, "[sync.RWMutex.") || strings.Contains(g, "[sync.Mutex.") || strings.Contains(g, "[semacquire")) {
+				stuck = g
+				break
+			}
+		}
+		lab.Unfreeze()
+		rel()
+		if stuck == "" {
+			res.Inconclusive = "watchdog: the join did not return within 45 s and is not blocked on a lock inside RequestToJoin"
+			return res
+		}
+		if len(stuck) > 3000 {
+			stuck = stuck[:3000]
+		}
+		lab.Abandon() // the wedged node cannot be made to leave either
+		res.Violations = append(res.Violations, batch.Viol{Key: "join-request-never-answered:" + c.Scenario, What: fmt.Sprintf("Join of %d via %d (successor %d, scenario %s) was not answered within 45 s: RequestToJoin is blocked acquiring a lock of the node and nothing will release it", jid, via.ID, succID, c.Scenario), Witness: map[string]any{"case": c, "ring": ids, "joiner": jid, "via": via.ID, "blocked_goroutine": stuck}})
+		if windowHit.Load() {
+			res.Sig = fmt.Sprintf("%s/n%d/netv=%v/%v", c.Scenario, n, c.NetV, "never-answered")
+		}
+		return res
+	}
 	lab.Unfreeze()
 	rel()
 	bg.Wait()
